@@ -36,6 +36,8 @@ int _vnadata_set_simple_format(vnadata_internal_t *vdip,
 	vnadata_parameter_type_t type, vnadata_format_t format)
 {
     vnadata_format_descriptor_t *vfdp_new = NULL;
+    vnadata_format_descriptor_t *vfdp_old;
+    int old_count;
     int rc = -1;
 
     /*
@@ -51,18 +53,21 @@ int _vnadata_set_simple_format(vnadata_internal_t *vdip,
     vfdp_new->vfd_format = format;
 
     /*
-     * Install the new vector.
+     * Install the new vector and update the format string.  If the
+     * string cannot be allocated, put the old vector back so that
+     * vector, count and string stay consistent.
      */
-    free((void *)vdip->vdi_format_vector);
+    vfdp_old = vdip->vdi_format_vector;
+    old_count = vdip->vdi_format_count;
     vdip->vdi_format_vector = vfdp_new;
     vdip->vdi_format_count = 1;
-
-    /*
-     * Update the format string.
-     */
     if (_vnadata_update_format_string(vdip) == -1) {
+	vdip->vdi_format_vector = vfdp_old;
+	vdip->vdi_format_count = old_count;
+	free((void *)vfdp_new);
 	goto out;
     }
+    free((void *)vfdp_old);
     rc = 0;
 
 out:
